@@ -46,13 +46,14 @@ fn build(p: &Program, ctx: &mut Ctx) {
                     if a + 1 < inv.args.len() { ctx.emit(p, || format!("statement {i}: swap args {a},{}", a + 1), |q: &mut Program| { if let Statement::Invocation(x) = &mut q.statements[i] { x.args.swap(a, a + 1); } }); }
                 }
                 for b in 0..inv.branches.len() {
-                    for (what, t) in [("out of range", BranchTarget::Statement(StatementIdx(n + 7))), ("usize::MAX", BranchTarget::Statement(StatementIdx(usize::MAX))), ("self", BranchTarget::Statement(StatementIdx(i))), ("0", BranchTarget::Statement(StatementIdx(0))), ("fallthrough", BranchTarget::Fallthrough)] {
+                    for (what, t) in [("out of range", BranchTarget::Statement(StatementIdx(n + 7))), ("one past the last statement", BranchTarget::Statement(StatementIdx(n))), ("usize::MAX", BranchTarget::Statement(StatementIdx(usize::MAX))), ("self", BranchTarget::Statement(StatementIdx(i))), ("0", BranchTarget::Statement(StatementIdx(0))), ("fallthrough", BranchTarget::Fallthrough)] {
                         ctx.emit(p, || format!("statement {i}: branch {b} target := {what}"), |q: &mut Program| { if let Statement::Invocation(x) = &mut q.statements[i] { x.branches[b].target = t; } });
                     }
                     ctx.emit(p, || format!("statement {i}: drop branch {b}"), |q: &mut Program| { if let Statement::Invocation(x) = &mut q.statements[i] { x.branches.remove(b); } });
                     for r in 0..inv.branches[b].results.len() {
                         ctx.emit(p, || format!("statement {i}: branch {b} drop result {r}"), |q: &mut Program| { if let Statement::Invocation(x) = &mut q.statements[i] { x.branches[b].results.remove(r); } });
                         ctx.emit(p, || format!("statement {i}: branch {b} duplicate result {r}"), |q: &mut Program| { if let Statement::Invocation(x) = &mut q.statements[i] { let v = x.branches[b].results[r].clone(); x.branches[b].results.push(v); } });
+                        if r > 0 { ctx.emit(p, || format!("statement {i}: branch {b}: result {r} bound to the same variable as result {}", r - 1), |q: &mut Program| { if let Statement::Invocation(x) = &mut q.statements[i] { let v = x.branches[b].results[r - 1].clone(); x.branches[b].results[r] = v; } }); }
                     }
                 }
             }
@@ -81,7 +82,7 @@ fn build(p: &Program, ctx: &mut Ctx) {
         }
     }
     for f in 0..p.funcs.len() {
-        for (what, e) in [("out of range", n + 3), ("usize::MAX", usize::MAX), ("middle", n / 2), ("last", n.saturating_sub(1))] { ctx.emit(p, || format!("function {f}: entry point := {what}"), |q: &mut Program| { q.funcs[f].entry_point = StatementIdx(e); }); }
+        for (what, e) in [("out of range", n + 3), ("one past the last statement", n), ("usize::MAX", usize::MAX), ("middle", n / 2), ("last", n.saturating_sub(1))] { ctx.emit(p, || format!("function {f}: entry point := {what}"), |q: &mut Program| { q.funcs[f].entry_point = StatementIdx(e); }); }
         ctx.emit(p, || format!("delete function {f}"), |q: &mut Program| { q.funcs.remove(f); });
         ctx.emit(p, || format!("duplicate function {f}"), |q: &mut Program| { let d = q.funcs[f].clone(); q.funcs.push(d); });
         for a in 0..p.funcs[f].params.len() {
